@@ -192,7 +192,7 @@ def _is_fresh_local(fb, fn, vid, depth=0):
         for d in [init] + list(fn.descendants(init)):
             m = fn.nodes[d]
             if m['k'] == 'DeclRefExpr' and m.get('id') is not None and m['id'] != vid and m['id'] not in fn.params \
-                    and m['id'] in fn.locals and _is_fresh_local(fb, fn, m['id'], depth + 1):
+                    and 0 <= m['id'] < len(fn.locals) and _is_fresh_local(fb, fn, m['id'], depth + 1):
                 return True
     return False
 
